@@ -67,7 +67,7 @@ package segment
 
 // ---------------------------------------------------------------- C14: the sender side
 // maxPayloadSize is a package variable (initialised to 1196-8, reassigned only by export_test.go)
-//@ global maxPayloadSize == 1188
+//@ initial[C14] maxPayloadSize == 1188
 // send puts exactly one datagram on the wire: the 8-byte header (sequence number, highest segment
 // index, this segment's index, big endian) followed by the payload bytes unchanged.
 //@ func send
